@@ -420,6 +420,28 @@ def Den (e : Env) (v : J) (t : Ty) : Prop := ∃ n, memG e n v t = true
 /-- denotation of a type written in `scope` -/
 def DenIn (e : Env) (scope : Scope) (v : J) (t : Ty) : Prop := Den e v (globalise e.decls scope [] t)
 
+/-! ### standard helper types
+
+`Omit<T, "k1" | "k2">` (used by the resolvers declaration file: `type User = Omit<Schema.__ResolverOutput.User,
+"__typename">`): the record type of `T` without the listed keys. Offered as an `appHook`; `Env.withStd` installs it.
+Additive: `Env.ofFile` / `Env.ofFiles` keep the empty hook. -/
+
+def Ty.strLits : Ty → Option (List String)
+  | .strLit s => some [s]
+  | .union ts => ts.foldr (fun t acc => match t, acc with | .strLit s, some r => some (s :: r) | _, _ => none) (some [])
+  | .prim "never" => some []
+  | _ => none
+
+def stdHook (d : Decls) (f : Ty) (args : List Ty) : Option Ty :=
+  match f, args with
+  | .ref "Omit", [t, k] =>
+    match objView { decls := d } 64 t, k.strLits with
+    | .isObj fs, some ks => some (.obj (fs.filter fun fld => !ks.contains fld.1))
+    | _, _ => none
+  | _, _ => none
+
+def Env.withStd (e : Env) : Env := { e with appHook := stdHook }
+
 /-- opaque atom tags that occur in a (closed or open) type: candidates for an abstract value domain -/
 def Ty.atomTags (e : Env) : Nat → Ty → List String
   | 0, _ => []
